@@ -30,6 +30,13 @@ pub mod protocols;
 pub mod test_utils;
 pub mod traits;
 
+/// Verification hooks (only compiled with `--cfg p2panda_p2panda_verif`).
+#[cfg(p2panda_p2panda_verif)]
+#[doc(hidden)]
+pub mod verif {
+    pub use crate::dedup::{DEFAULT_BUFFER_CAPACITY, DeduplicationBuffer};
+}
+
 /// Configuration object for instantiating sync sessions.
 #[derive(Clone, Debug)]
 pub struct SessionConfig<T> {
